@@ -1,6 +1,7 @@
 package main
 
 import (
+	"go/token"
 	"flag"
 	"fmt"
 	"os"
@@ -214,6 +215,26 @@ func listFuncs(p *Program) {
 	fmt.Println("package main\n\n// Code generated by `genqlcheck -list-funcs`; the module functions the rule tables were written against.\n// A function that is not listed is a helper the rules do not know: the path walker inlines it.\nvar knownFuncs = map[string]bool{")
 	for _, n := range names {
 		fmt.Printf("\t%q: true,\n", n)
+	}
+	fmt.Println("}")
+	// where each unexported function lives and what it takes and returns: lets a later tree that renamed one be matched
+	fmt.Println("\n// knownSigs: package, receiver and signature of the unexported functions above (resolveRenames).\nvar knownSigs = map[string]string{")
+	sigs := map[string]string{}
+	for _, f := range p.ModFuncs {
+		if f.Parent() != nil || f.Origin() != nil || f.Synthetic != "" {
+			continue
+		}
+		if !token.IsExported(f.Name()) {
+			sigs[funcNameRaw(f)] = sigKey(f)
+		}
+	}
+	var sn []string
+	for n := range sigs {
+		sn = append(sn, n)
+	}
+	sort.Strings(sn)
+	for _, n := range sn {
+		fmt.Printf("\t%q: %q,\n", n, sigs[n])
 	}
 	fmt.Println("}")
 }
